@@ -75,6 +75,21 @@ fn run_pair_combos(ctx: &mut Ctx, rng: &mut Rng, y: &Series, x: &Series, w: usiz
                 let oi = yf.opt();
                 run_valid2::<_, Option<f64>, Vec<f64>, f64, Vec<f64>, f64>(ctx, &c("optiter(vec<f64>),vec<f64>->vec<f64>"), &oi, &xf);
             }
+            // the regressor (second series) in a narrower element type: the values are first rounded through
+            // f32 so that the reference sees exactly what the library is given
+            let x32: Series = x.iter().map(|v| v.map(|f| f as f32 as f64)).collect();
+            if x32.iter().flatten().all(|f| f.is_finite()) {
+                let xf32 = enc_f32(&x32);
+                let c32 = Call::new(rf, y, w, mp, path, "vec<f64>,vec<f32>->vec<f64>", class).with_y(&x32);
+                run_valid2::<Vec<f64>, f64, Vec<f32>, f32, Vec<f64>, f64>(ctx, &c32, &yf, &xf32);
+                ctx.count("state.regressor_f32");
+            }
+            if int_valued {
+                let yi64 = enc_opt_i64(y);
+                let xi32 = enc_opt_i32(x);
+                run_valid2::<Vec<Option<i64>>, Option<i64>, Vec<Option<i32>>, Option<i32>, Vec<f64>, f64>(ctx, &c("vec<opt i64>,vec<opt i32>->vec<f64>"), &yi64, &xi32);
+                ctx.count("state.regressor_i32");
+            }
             if int_valued {
                 let yi = enc_opt_i32(y);
                 let xi = enc_opt_i64(x);
